@@ -42,6 +42,16 @@ def _work(job):
     """One chunk of runs in a worker process."""
     prop_id, verif_seed, start, count, tier, known, deadline, chunk_wall = job
     faulthandler.dump_traceback_later(chunk_wall, exit=True)
+    import resource
+    import signal
+    try:
+        resource.setrlimit(resource.RLIMIT_AS, (8 << 30, 8 << 30))
+    except (ValueError, OSError):
+        pass
+
+    def _alarm(signum, frame):
+        raise HarnessError("run exceeded the per-run wall backstop")
+    signal.signal(signal.SIGALRM, _alarm)
     try:
         prop = load_prop(prop_id)
         prop.known = set(known)
@@ -54,7 +64,13 @@ def _work(job):
                 out["deadline"] = True
                 break
             track = (index % 16 == 0)
-            r = run_one(prop, w, verif_seed, index, tier, track_states=track)
+            signal.alarm(prop.run_wall)
+            try:
+                r = run_one(prop, w, verif_seed, index, tier, track_states=track)
+            except (HarnessError, MemoryError, RecursionError) as x:
+                raise HarnessError("run %d of %s: %r" % (index, prop_id, x))
+            finally:
+                signal.alarm(0)
             out["runs"] += 1
             out["events"] += r.n_events
             out["sim_ticks"] += w.clock.ticks
